@@ -1,5 +1,6 @@
 import Driver.Codec
 import Artela.Model.CallTracer
+import Artela.Model.FlatTracer
 /-  Driver handlers for the M4 call-tracer layer: `E …` callback events, `Q ctnested`, `Q ctflat`. -/
 namespace Driver
 open Artela Artela.Codec Artela.CallTracer
@@ -9,6 +10,7 @@ structure CTState where
   panicked : Bool := false
   includePrecompiles : Bool := false
   flatPanicked : Bool := false
+  parity : Bool := false        -- convertParityErrors
 
 def perr (s : String) : Option String := if s = "-" then none else some (s.replace "_" " ")
 
@@ -25,32 +27,12 @@ def parseTEvent (toks : List String) : Option TEvent :=
   | ["aexit", jp, g, r, e] => do pure (.aspectExit (← parseHexNat jp) (← parseHexNat g) (← parseBytes r) (perr e))
   | _ => none
 
-def isPrecompileAddr (a : Nat) : Bool := (1 ≤ a && a ≤ 9) || (0x64 ≤ a && a ≤ 0x66)
-
-/-- `flatCallTracer.CaptureExit` after the inner tracer's: drop CALL / STATICCALL frames to precompiles issued by an EVM frame -/
+/-- `flatCallTracer.CaptureExit` after the inner tracer's (model: `flatAfterInnerExit`) -/
 def flatAfterExit (c : CTState) (before : TState) : CTState :=
-  if c.includePrecompiles || before.onlyTop then c else
-  match before.stack, c.st.stack with
-  | _ :: _ :: _, p :: _ =>
-    match c.st.frames[p]? with
-    | none => c
-    | some pf =>
-      if pf.curJP.isSome || pf.calls.isEmpty then c else
-      match pf.calls.getLast? with
-      | none => c
-      | some last =>
-        match c.st.frames[last]? with
-        | none => c
-        | some lf =>
-          if (lf.typ == "CALL" || lf.typ == "STATICCALL") && isPrecompileAddr (lf.to.getD 0) then
-            { c with st := { c.st with frames := c.st.frames.modify p (fun f => { f with calls := f.calls.dropLast }) } }
-          else c
-  | [_], _ =>
-    -- inner returned early (size <= 1); the flat tracer then indexes parent.Calls[len-1]
-    match c.st.frames[0]? with
-    | some f0 => if f0.calls.isEmpty && f0.curJP.isNone then { c with flatPanicked := true } else c
-    | none => c
-  | _, _ => c
+  if c.includePrecompiles then c else
+  match flatAfterInnerExit before c.st with
+  | .ok st' => { c with st := st' }
+  | _ => { c with flatPanicked := true }
 
 def ctEvent (c : CTState) (flat : Bool) (toks : List String) : CTState × String :=
   match parseTEvent toks with
@@ -85,45 +67,46 @@ partial def showFrame (st : TState) (id : Nat) : String :=
       | some x => s!"A({jpName x.jp},{hexNat x.aspect},{hexNat x.frm},{hexNat x.to},{hexNat x.gas},{hexNat x.gasUsed},{hexBytes x.input},{hexNat x.value},{hexBytes x.output},{errOrDash x.error};C{listStr (x.calls.map (showFrame st))})")
     s!"F({f.typ},{hexNat f.frm},{optNat f.to},{hexBytes f.input},{hexNat f.gas},{hexNat f.gasUsed},{optNat f.value},{hexBytes f.output},{errOrDash f.error};J{listStr js};C{listStr (f.calls.map (showFrame st))})"
 
+/-- `convertErrorToParity`: exact-match table first, then the two prefixes -/
+def parityError (e : String) : String :=
+  if e = "contract creation code storage out of gas" ∨ e = "out of gas" ∨ e = "gas uint64 overflow" ∨ e = "max code size exceeded" then "Out of gas"
+  else if e = "invalid jump destination" then "Bad jump destination"
+  else if e = "execution reverted" then "Reverted"
+  else if e = "return data out of bounds" then "Out of bounds"
+  else if e = "stack limit reached 1024 (1023)" then "Out of stack"
+  else if e = "precompiled failed" ∨ e = "invalid input length" then "Built-in failed"
+  else if e.startsWith "invalid opcode:" then "Bad instruction"
+  else if e.startsWith "stack underflow" then "Stack underflow"
+  else e
+
+def shownErr (parity : Bool) (e : String) : String := errOrDash (if parity then parityError e else e)
+
 def showAddr (a : List Nat) : String := "/" ++ "/".intercalate (a.map toString)
 
-mutual
-/-- `flatFromNested` -/
-partial def flatFrame (st : TState) (id : Nat) (addr : List Nat) : List String :=
-  match st.frames[id]? with
-  | none => ["?"]
-  | some f =>
-    let pre := f.jps.filter (fun a => match st.aspects[a]? with | some x => x.jp == 2 || x.jp == 4 | none => false)
-    let isCreate := f.typ == "CREATE" || f.typ == "CREATE2"
-    let dropResult := f.error != "" && f.error != "execution reverted"
-    let head := s!"{if isCreate then "create" else "call"}:{if isCreate then "create" else f.typ.toLower}:{hexNat f.frm}:{optNat f.to}:{hexNat f.gas}:{hexBytes f.input}:{optNat f.value}:{if dropResult then "noresult" else hexNat f.gasUsed ++ "/" ++ hexBytes f.output}:{errOrDash f.error}:sub={f.calls.length + f.jps.length}:at={showAddr addr}"
-    let preParts := ((List.range f.jps.length).zip f.jps).flatMap (fun (i, a) =>
-      match st.aspects[a]? with
-      | some x => if x.jp == 2 || x.jp == 4 then flatAspect st a (addr ++ [i]) else []
-      | none => [])
-    let callParts := ((List.range f.calls.length).zip f.calls).flatMap (fun (i, c) => flatFrame st c (addr ++ [i + pre.length]))
-    let postParts := ((List.range f.jps.length).zip f.jps).flatMap (fun (i, a) =>
-      match st.aspects[a]? with
-      | some x => if x.jp == 2 || x.jp == 4 then [] else flatAspect st a (addr ++ [i + f.calls.length])
-      | none => [])
-    [head] ++ preParts ++ callParts ++ postParts
-
-/-- `flatAspectNested` -/
-partial def flatAspect (st : TState) (a : Nat) (addr : List Nat) : List String :=
-  match st.aspects[a]? with
-  | none => ["?"]
-  | some x =>
-    let dropResult := x.error != "" && x.error != "execution reverted"
-    let head := s!"aspect:{(jpName x.jp).toLower}:{hexNat x.aspect}:{hexNat x.frm}:{hexNat x.to}:{hexNat x.gas}:{hexBytes x.input}:{hexNat x.value}:{if dropResult then "noresult" else hexNat x.gasUsed ++ "/" ++ hexBytes x.output}:{errOrDash x.error}:sub={x.calls.length}:at={showAddr addr}"
-    [head] ++ ((List.range x.calls.length).zip x.calls).flatMap (fun (i, c) => flatFrame st c (addr ++ [i]))
-end
+/-- one entry of the flat output, rendered canonically (fields of the frame / Aspect frame the entry stands for; trace
+    address and sub-trace count as computed by the model's `goFlatFrame`) -/
+def renderEntry (par : Bool) (st : TState) (e : FlatEntry FLabel) : String :=
+  match e.label with
+  | .frame id =>
+    match st.frames[id]? with
+    | none => "?"
+    | some f =>
+      let isCreate := f.typ == "CREATE" || f.typ == "CREATE2"
+      let dropResult := f.error != "" && f.error != "execution reverted"
+      s!"{if isCreate then "create" else "call"}:{if isCreate then "create" else f.typ.toLower}:{hexNat f.frm}:{optNat f.to}:{hexNat f.gas}:{hexBytes f.input}:{optNat f.value}:{if dropResult then "noresult" else hexNat f.gasUsed ++ "/" ++ hexBytes f.output}:{shownErr par f.error}:sub={e.sub}:at={showAddr e.addr}"
+  | .aspect a =>
+    match st.aspects[a]? with
+    | none => "?"
+    | some x =>
+      let dropResult := x.error != "" && x.error != "execution reverted"
+      s!"aspect:{(jpName x.jp).toLower}:{hexNat x.aspect}:{hexNat x.frm}:{hexNat x.to}:{hexNat x.gas}:{hexBytes x.input}:{hexNat x.value}:{if dropResult then "noresult" else hexNat x.gasUsed ++ "/" ++ hexBytes x.output}:{shownErr par x.error}:sub={e.sub}:at={showAddr e.addr}"
 
 def ctQuery (c : CTState) (toks : List String) : Option String :=
   match toks with
   | ["ctnested"] =>
     some (if c.panicked then "panic" else if c.st.stack.length != 1 then "err:incorrect_number_of_top-level_calls" else showFrame c.st 0)
   | ["ctflat"] =>
-    some (if c.panicked || c.flatPanicked then "panic" else listStr (flatFrame c.st 0 []))
+    some (if c.panicked || c.flatPanicked then "panic" else listStr ((flatOutput c.st).map (renderEntry c.parity c.st)))
   | _ => none
 
 end Driver
